@@ -21,6 +21,14 @@ Check (eq_refl : run_engine = fix run_engine (g : config) (en : engine) (evs : l
   | [] => Some en
   | e :: rest => match process g en e with Some (en', _) => run_engine g en' rest | None => None end
   end).
+From VP Require Import Sase.ProofsCompile.
+Check (C05_kleene_events_bound :
+  forall steps negs part max_runs st lim evs en',
+    count_all steps <= 1 -> (1 <= max_events lim)%N ->
+    run_engine (mkCfg (compile steps) negs part max_runs st lim) engine0 evs = Some en' ->
+    forall r, (In r (e_runs en') \/ exists k rs, In (k, rs) (e_parts en') /\ In r rs) -> r_inval r = false ->
+      forall k, r_kc r = Some k -> (N.of_nat (length (k_events k)) <= max_events lim)%N).
+Print Assumptions C05_kleene_events_bound.
 Print Assumptions C05_never_panics.
 Print Assumptions C05_runs_bound.
 Print Assumptions C05_enumeration_cap.
